@@ -188,8 +188,8 @@ def sym_scalar(v, key, target, kinds=None):
     # text
     if t in REALISING:
         return v.pick(key + ".text", TEXT_POOL[t])
-    maxlen = 2 if v.tier == "quick" else 3
-    return v.str(key + ".str", maxlen, ALPHABET)
+    # two characters in both tiers: a third one multiplies the paths of every string-like and tuple dtype by 13
+    return v.str(key + ".str", 2, ALPHABET)
 
 
 def sym_scalar_small(v, key, target, kinds=None):
